@@ -89,6 +89,12 @@ static void zero_fill(V& v)
 #endif
 }
 
+template <class... P>
+constexpr bool all_integral(L<P...>)
+{
+    return (std::is_integral_v<typename PI<P>::V> && ...);
+}
+
 template <class V>
 static V build(M& m, usize kmin, usize kmax, int id, bool draw_fixed = true)
 {
@@ -124,7 +130,13 @@ static V build(M& m, usize kmin, usize kmax, int id, bool draw_fixed = true)
         }
     }
     // history: the same logical content may have been reached by adding one more element and removing it again
+#ifdef KF_CMP_HISTORY
+    // discriminator of KF-cmp-history: lists whose vectors compare by whole-buffer memcmp (all value types integral) do not get
+    // the "element added and removed again" history
+    if (spare == 1 && !all_integral(LT{}))
+#else
     if (spare == 1)
+#endif
     {
         usize hist = verif_nondet_size();
         verif_assume(hist < 3);
